@@ -168,16 +168,19 @@ Definition parse_av_stream (fx : bool) (st : ps_state) (code rtpts : N) (rb : by
   if is_audio_code code then
     if (ps_ast st =? 15) || (ps_ast st =? 144) || (ps_ast st =? 145) then
       let flush := [mk_psev (ps_apt st) (Z.quot (ps_pre_adts st) 90) (Z.quot (ps_pre_apts st) 90) (ps_abuf st)] in
-      let '(pts', abuf, evs) :=
+      (* C07 fix (lal c5259a2): a stream without pts is stamped with the rtp timestamp (was: preAudioDts = -1, i.e. 0 ms),
+         and a further pes packet of a frame inherits the dts of the frame (was: dts = -1 overwrote preAudioDts) *)
+      let flush_rtp := if fx then [mk_psev (ps_apt st) (Z.quot (ps_pre_artpts st) 90) (Z.quot (ps_pre_artpts st) 90) (ps_abuf st)] else flush in
+      let '(pts', dts, abuf, evs) :=
         if (pts =? -1)%Z then
           if (ps_pre_apts st =? -1)%Z then
-            if (ps_pre_artpts st =? -1)%Z then (pts, ps_abuf st, [])
-            else if negb (ps_pre_artpts st =? rtp)%Z then (pts, [], flush)
-            else (pts, ps_abuf st, [])
-          else (ps_pre_apts st, ps_abuf st, [])
+            if (ps_pre_artpts st =? -1)%Z then (pts, dts, ps_abuf st, [])
+            else if negb (ps_pre_artpts st =? rtp)%Z then (pts, dts, [], flush_rtp)
+            else (pts, dts, ps_abuf st, [])
+          else (ps_pre_apts st, (if fx then ps_pre_adts st else dts), ps_abuf st, [])
         else
-          if negb (pts =? ps_pre_apts st)%Z && (0 <=? ps_pre_apts st)%Z then (pts, [], flush)
-          else (pts, ps_abuf st, []) in
+          if negb (pts =? ps_pre_apts st)%Z && (0 <=? ps_pre_apts st)%Z then (pts, dts, [], flush)
+          else (pts, dts, ps_abuf st, []) in
       let* data := (if lenN rb <? 6 + length then Panic s_ps_av_slice else slice s_ps_av_slice rb i (6 + length)) in
       Ok (Z.of_N (2 + length),
           mk_ps (ps_list st) (ps_size st) (ps_done st) (ps_buf st) (abuf ++ data) (ps_vbuf st)
